@@ -70,7 +70,7 @@ func canonReq(b []byte) string {
 }
 
 func checkC15(c *hx.Ctx) {
-	c.Rule("(1) sequences of 1-6 transactions (valid batches written by the real OperationHandler, malformed anchor strings, missing / corrupt batch files, unknown namespace, unknown protocol version, duplicate-carrying transactions through a stub provider) delivered in 1-3 ledger notifications to the REAL Observer goroutine (race detector on) with ONE injected fault per run enumerated over every position: each CAS file of each transaction, the store Put of each transaction; oracle over the recorded store.Put calls: per processable transaction exactly one Put holding one operation per suffix (the first) stamped with the transaction's time, number, protocol version, canonical and equivalent references, nothing for a failed one, later transactions still processed, configured unpublished operations deleted; (2) DocumentHandler.ProcessOperation over sequences of valid and refused operations with an unpublished-store Put failure / writer Add failure at every call index: refused or failed operations leave no trace in the writer and in the unpublished store, also with the REAL batch.Writer (accepting, then stopped) in front of the real in-memory queue; non-trivial = run with a fault or a failing transaction; distinct = distinct (sequence, fault)")
+	c.Rule("(1) sequences of 1-6 transactions (valid batches written by the real OperationHandler, malformed anchor strings, missing / corrupt batch files, unknown namespace, unknown protocol version, duplicate-carrying transactions through a stub provider, hand-made batch files listing one DID twice read by the real provider) delivered in 1-3 ledger notifications to the REAL Observer goroutine (race detector on) with ONE injected fault per run enumerated over every position: each CAS file of each transaction, the store Put of each transaction; oracle over the recorded store.Put calls: per processable transaction exactly one Put holding one operation per suffix (the first) stamped with the transaction's time, number, protocol version, canonical and equivalent references, nothing for a failed one, later transactions still processed, configured unpublished operations deleted; (2) DocumentHandler.ProcessOperation over sequences of valid and refused operations with an unpublished-store Put failure / writer Add failure at every call index: refused or failed operations leave no trace in the writer and in the unpublished store, also with the REAL batch.Writer (accepting, then stopped) in front of the real in-memory queue; non-trivial = run with a fault or a failing transaction; distinct = distinct (sequence, fault)")
 	c.Set("race_detector_enabled", raceEnabled)
 	p := c13Proto(ref.SHA256)
 	p2 := c13Proto(ref.SHA256)
@@ -106,7 +106,7 @@ func checkC15(c *hx.Ctx) {
 				t.CanonicalReference, t.EquivalentReferences = "", nil
 			}
 			pl := &txnPlan{Txn: t}
-			kind := hx.Pick(r, []string{"valid", "valid", "valid", "dup", "malformed-anchor", "missing-file", "corrupt-file", "unknown-namespace", "unknown-version"})
+			kind := hx.Pick(r, []string{"valid", "valid", "valid", "dup", "dup-in-files", "malformed-anchor", "missing-file", "corrupt-file", "unknown-namespace", "unknown-version"})
 			pl.Kind = kind
 			// a batch of 1-5 operations on distinct DIDs
 			var batch []*batchOp
@@ -129,6 +129,49 @@ func checkC15(c *hx.Ctx) {
 				continue
 			}
 			switch kind {
+			case "dup-in-files":
+				// hand-made batch files (read by the REAL provider) whose provisional index lists one DID twice: the whole
+				// transaction is malformed and contributes nothing
+				var ups []*batchOp
+				for _, d := range r.Perm(len(bp)) {
+					for _, o := range bp[d] {
+						if o.Type == "update" && o.Until == 0 && !usedOps[o.ID] {
+							ups = append(ups, o)
+							usedOps[o.ID] = true
+							break
+						}
+					}
+					if len(ups) == 2 {
+						break
+					}
+				}
+				if len(ups) < 2 {
+					continue
+				}
+				fs, err := newFileSet(p, ups)
+				if err != nil {
+					c.Inconclusive("cannot build file set: %v", err)
+					return
+				}
+				for _, role := range []string{"core-index", "prov-index", "prov-proof", "chunk"} {
+					retarget(fs, role, fmt.Sprintf("dupfiles-%d-%d-%s", si, k, role))
+				}
+				asMap := func(v interface{}) map[string]interface{} { m, _ := v.(map[string]interface{}); return m }
+				asArr := func(v interface{}) []interface{} { a, _ := v.([]interface{}); return a }
+				u := asArr(asMap(asMap(fs.Trees["prov-index"])["operations"])["update"])
+				pp := asArr(asMap(asMap(fs.Trees["prov-proof"])["operations"])["update"])
+				dl := asArr(asMap(fs.Trees["chunk"])["deltas"])
+				if len(u) != 2 || len(pp) != 2 || len(dl) != 2 {
+					c.Inconclusive("unexpected file set shape")
+					return
+				}
+				u[1], pp[1], dl[1] = ref.CopyTree(u[0]), pp[0], ref.CopyTree(dl[0])
+				for uri, b64 := range fs.encode(nil) {
+					raw, _ := ref.UnB64(b64)
+					cas.M[uri] = raw
+				}
+				pl.Txn.AnchorString = fmt.Sprintf("2.%s", fs.URI["core-index"])
+				pl.Expect = nil
 			case "dup":
 				pl.Txn.ProtocolVersion = p2.GenesisTime
 				pl.Txn.AnchorString = fmt.Sprintf("stub-%d-%d", si, k)
@@ -414,7 +457,7 @@ func checkC15(c *hx.Ctx) {
 		var steps []step
 		ids := newIDPool(r)
 		for k := 0; k < 4+r.Intn(8); k++ {
-			switch r.Intn(7) {
+			switch r.Intn(8) {
 			case 0, 1:
 				_, cr, _ := NewCDid(r.Split(fmt.Sprint("n", k)), ref.SHA256, []string{"P-256"}, 300, false, genPatches(r, 2, ids), nil, nil, "")
 				steps = append(steps, step{"create", cr.Req, true})
@@ -430,6 +473,17 @@ func checkC15(c *hx.Ctx) {
 				ghost.Suffix = "EiGhostDoesNotExistxxxxxxxxxxxxxxxxxxxxxxxxxxxx"
 				b, _ := ghost.Update(genPatches(r, 2, ids), 0, 0)
 				steps = append(steps, step{"update-unknown-did", b.Req, false})
+			case 7:
+				// a create that the parser admits but whose initial document cannot be built / is not a valid document
+				bad := hx.Pick(r, [][]interface{}{
+					{patchJSON(map[string]interface{}{"op": "remove", "path": "/missing"})},
+					{patchAddServices(genService(r, "okSvc")), patchJSON(map[string]interface{}{"op": "move", "from": "/nowhere", "path": "/x"})},
+					{patchJSON(map[string]interface{}{"op": "add", "path": "/id", "value": "did:x:y"})},
+				})
+				_, cr, err := NewCDid(r.Split(fmt.Sprint("badcreate", k)), ref.SHA256, []string{"P-256"}, 300, false, bad, nil, nil, "")
+				if err == nil {
+					steps = append(steps, step{"create-refused-by-document-validation", cr.Req, false})
+				}
 			case 5:
 				steps = append(steps, step{"garbage", []byte(hx.Pick(r, []string{`{}`, `{"type":"create"}`, `not json`, `{"type":"update","didSuffix":"x"}`})), false})
 			default:
@@ -569,6 +623,7 @@ func checkC15(c *hx.Ctx) {
 	c.Floor("runs:cas-read", 50)
 	c.Floor("runs:store-put", 20)
 	c.Floor("txn_kind:dup", 10)
+	c.Floor("txn_kind:dup-in-files", 5)
 	c.Floor("txn_kind:valid", 50)
 	c.Floor("intake_runs:unpublished-put-fails", 50)
 	c.Floor("intake_runs:writer-add-fails", 50)
